@@ -496,6 +496,19 @@ def run_dsk(inp):
         cc, cr = comp.circle_parameters()
         res["complement_circle"] = max(err(np.asarray(cc, float), np.stack([c.real, c.imag], -1)), err(np.asarray(cr, float), r))
         res["complement_unbounded"] = 0.0 if not np.any(comp.center_inside()) else 1.0
+        # the complement reports its own Fubini-Study centre (boundary FS-equidistant from it) and diameter (pi - the disk's)
+        cfc = np.asarray(comp.fs_center().proj_data, complex).reshape(len(c), 2)
+        cfd = np.asarray(comp.fs_diameter(), float)
+        res["complement_fs_diameter"] = err(cfd, math.pi - fd2)
+        def _aff(pz):
+            return None if abs(pz[0]) < 1e-12 * max(1.0, abs(pz[1])) else pz[1] / pz[0]
+        res["complement_fs_centre"] = max(abs(fs_dist(b, _aff(cc)) - f / 2) for row, cc, f in zip(bd2, cfc, cfd) for b in row)
+        # the same disk from other centre coordinates
+        sph = np.asarray(CP.CP1Point(c, coords="cx_affine").spherical_coords(), float)
+        for cname, cdat in (("spherical", sph), ("real_affine", np.stack([c.real, c.imag], -1))):
+            dd = CP.CP1Disk(cdat, r, center_coords=cname)
+            cc_, rr_ = dd.circle_parameters()
+            res["centre_coords_" + cname] = max(err(np.asarray(cc_, float), np.stack([c.real, c.imag], -1)), err(np.asarray(rr_, float), r))
         c2 = comp.complement()
         res["complement_twice"] = 0.0 if proj_close(c2.proj_data, d.proj_data, 1e-8) and np.all(c2.center_inside()) else 1.0
     return res
@@ -581,6 +594,55 @@ def judge_rel_oracle(inp, obs, lr):
     return None
 
 
+# ------------------------------------------------------------------------------------------------
+# S2d: the Fubini-Study constructor, QR factors observed (numpy.linalg.qr wrapped inside this process only)
+# ------------------------------------------------------------------------------------------------
+def gen_fs(rng, n):
+    for _ in range(n):
+        yield {"c": [rng.uniform(-3, 3), rng.uniform(-3, 3)] if rng.random() > 0.1 else [0.0, 0.0], "rad": rng.uniform(0.05, 0.7)}
+
+
+def run_fs(inp):
+    seen = {}
+    orig = np.linalg.qr
+    def spy(a, *args, **kw):
+        q, r = orig(a, *args, **kw)
+        seen["q"], seen["r"] = np.array(q), np.array(r)
+        return q, r
+    np.linalg.qr = spy
+    try:
+        d = CP.CP1Disk(np.array([complex(*inp["c"])]), np.array([inp["rad"]]), radius_metric="fs")
+    finally:
+        np.linalg.qr = orig
+    q, r = seen["q"].reshape(3, 3), seen["r"].reshape(3, 1)
+    sph = np.asarray(d.boundary_points().spherical_coords(), float).reshape(3, 3)
+    ctr = np.asarray(CP.CP1Point(np.array([complex(*inp["c"])]), coords="cx_affine").spherical_coords(), float).reshape(3)
+    return {"q": q.tolist(), "r00": float(r[0, 0]), "c2": float(np.cos(2 * inp["rad"])), "s2": float(np.sin(2 * inp["rad"])),
+            "sph": sph.tolist(), "ctr": ctr.tolist(),
+            "contract": max(err(q.T @ q, np.eye(3)), err(q[:, 0] * r[0, 0], ctr))}
+
+
+def lean_fs(inp, obs):
+    if "exc" in obs:
+        return []
+    q = np.array(obs["q"])
+    return [{"op": "c20.fs_boundary", "q0": [Q.qs(x) for x in q[:, 0]], "q1": [Q.qs(x) for x in q[:, 1]], "q2": [Q.qs(x) for x in q[:, 2]],
+             "r00": Q.qs(obs["r00"]), "c2": Q.qs(obs["c2"]), "s2": Q.qs(obs["s2"])}]
+
+
+def judge_fs(inp, obs, lr):
+    if "exc" in obs:
+        return {"expected": "fs disk", "observed": obs, "tags": {"exc": obs["exc"]}, "property_failure": True}
+    if not (obs["contract"] <= 1e-9):
+        return {"expected": "QR contract (q orthogonal, q0*r00 = centre)", "observed": obs["contract"], "tags": {"what": "qr contract"}}
+    if "err" in lr[0]:
+        return {"expected": "model answer", "observed": lr[0], "tags": {"driver_err": lr[0]["err"]}}
+    mv = Q.decf(lr[0]["ok"])
+    if not close(obs["sph"], mv, 1e-9):
+        return {"expected": {"model": mv.tolist()}, "observed": obs["sph"], "tags": {"what": "fs boundary"}}
+    return None
+
+
 CLAUSES = [
     Clause("spherical_corr", "corr", gen_sph, run_sph, judge_sph, lean=lean_sph, site="complex_projective.projective_to_spherical / spherical_to_projective",
            budget={"quick": 150, "thorough": 3000},
@@ -591,6 +653,9 @@ CLAUSES = [
     Clause("relations_corr", "corr", gen_rel, run_rel, judge_rel, lean=lean_rel, site="complex_projective.CP1Disk.contains / intersects",
            budget={"quick": 150, "thorough": 3000},
            what="contains/intersects, elementwise and pairwise, all bounded/unbounded combinations, vs the model's mask plumbing fed with the implementation's center_inside and disk_interactions tables"),
+    Clause("fs_corr", "corr", gen_fs, run_fs, judge_fs, lean=lean_fs, site="complex_projective.CP1Disk._compute_proj_data(radius_metric='fs')",
+           budget={"quick": 60, "thorough": 1500},
+           what="the three spherical boundary points of CP1Disk(c, rad, 'fs') vs fsBoundary fed with the observed QR factors (numpy.linalg.qr wrapped in-process) and cos/sin(2 rad); QR contract residual"),
     Clause("points_oracle", "oracle", gen_pt, run_pt, judge_pt, site="complex_projective.CP1Point",
            budget={"quick": 200, "thorough": 5000},
            what="float points incl. 0 and infinity: |s|=1, p2s∘s2p, s2p∘p2s (projectively), agreement with stereographic projection, cx_affine / real_affine constructors"),
